@@ -182,9 +182,12 @@ def corr_wcsplit(patterns, flagsets, nproc=16):
     evals = 0
     nontriv = set()
     samples = []
-    for fv in flagsets:
-        outs = m.run(['wcsplit %d %s' % (fv, enc(p)) for p in patterns], nproc=nproc)
-        for p, o in zip(patterns, outs):
+    allouts = {fv: m.run(['wcsplit %d %s' % (fv, enc(p)) for p in patterns], nproc=nproc) for fv in flagsets}
+    # patterns outermost: the same text goes through every flag set back to back, through the class and through the
+    # module-level split() the entry points call (whatever that remembers between calls must not show)
+    for ip, p in enumerate(patterns):
+        for fv in flagsets:
+            o = allouts[fv][ip]
             try:
                 r = list(W.WcSplit(p, fv).split())
                 exp = ','.join(enc(x) for x in r) if r else '[]'
@@ -197,6 +200,15 @@ def corr_wcsplit(patterns, flagsets, nproc=16):
                             'impl': r, 'model': [dec(x) for x in o.split(',')] if o not in ('[]',) else []})
             elif r and len(r) > 1:
                 nontriv.add((fv, p))
+            if r is not None:
+                try:
+                    r2 = list(W.split(p, fv))
+                except Exception as e:
+                    r2 = 'EXC ' + type(e).__name__
+                if r2 != r:
+                    dis.append({'kind': 'split()', 'pattern': p, 'flags': fv, 'flag_names': flag_names(fv), 'impl': r2,
+                                'model': r, 'note': '_wcparse.split(p, flags) differs from WcSplit(p, flags).split() in this call history'})
+    for fv in flagsets:
         if patterns and len(samples) < 4:
             p = patterns[len(patterns) // 2]
             samples.append({'pattern': p, 'flags': flag_names(fv), 'pieces': list(W.WcSplit(p, fv).split())})
@@ -387,7 +399,7 @@ def derived_alphabet(ast, extra='x', newline=False, slash=False):
     return al
 
 
-def search_den(asts, configs, maxlen=4, nproc=16, use_filter=True, hidden='all'):
+def search_den(asts, configs, maxlen=4, nproc=16, use_filter=True, hidden='all', extra='x'):
     """asts: wire strings of pattern sequences; configs: list of (ci, dot, newline_in_alphabet).
     hidden: 'all' | 'only' | 'none' - which names to evaluate when dot is off.
     The spec gives a lower and an upper bound (they differ only on names with a protected leading dot).
@@ -400,7 +412,7 @@ def search_den(asts, configs, maxlen=4, nproc=16, use_filter=True, hidden='all')
     meta = []
     for ast in asts:
         for (ci, dot, nl) in configs:
-            al = derived_alphabet(ast, newline=nl)
+            al = derived_alphabet(ast, extra=extra, newline=nl)
             names = list(astgen.names_upto(al, maxlen if len(al) <= 5 else maxlen - 1))
             if not dot and hidden == 'only':
                 names = [n for n in names if n.startswith('.')]
@@ -449,7 +461,7 @@ def search_den(asts, configs, maxlen=4, nproc=16, use_filter=True, hidden='all')
     return evals, len(nontriv), mism
 
 
-def search_pden(pps, configs, maxlen=5, nproc=16, root_names=False):
+def search_pden(pps, configs, maxlen=5, nproc=16, root_names=False, nl_suffix=False):
     """pps: ppat wire strings; configs: list of dicts(ci, dot, gs, gl, mb, nodir?).  Names: all strings up to maxlen
     over a derived alphabet that always contains '/', '.'."""
     import_impl()
@@ -468,6 +480,8 @@ def search_pden(pps, configs, maxlen=5, nproc=16, root_names=False):
             names = [n for n in astgen.names_upto(al, maxlen if len(al) <= 4 else maxlen - 1)]
             # relative patterns are compared on relative paths, rooted patterns on rooted paths
             names = [n for n in names if n.startswith('/') == rooted]
+            if nl_suffix:
+                names = [n + '\n' for n in names]     # a final line feed is a character like any other
             en = ','.join(enc(n) for n in names)
             for lb in (0, 1):
                 reqs.append('pden %d %d %d %d %d %d %s %s' % (lb, cf['ci'], cf['dot'], cf['gs'], cf['gl'], cf['mb'], pp, en))
